@@ -20,12 +20,14 @@ def sig_of(msg):
     return m[:140]
 
 
-def eval_range(drv, wd, a, b, timeout=25):
-    """evaluate faults [a,b) in child processes; returns {k: outcome}; a child that dies or hangs blames the fault it had started"""
+def eval_range(drv, wd, a, b, timeout=25, table=None):
+    """evaluate faults [a,b) (of one table's plan file when `table` is given) in child processes; returns {k: outcome};
+    a child that dies or hangs blames the fault it had started"""
     res = {}
     k = a
+    targ = [] if table is None else [str(table)]
     while k < b:
-        p = subprocess.Popen(["prlimit", "--as=8000000000", drv, "eval", wd, str(k), str(b)], stdout=subprocess.PIPE, stderr=subprocess.PIPE, text=True,
+        p = subprocess.Popen(["prlimit", "--as=8000000000", drv, "eval", wd, str(k), str(b)] + targ, stdout=subprocess.PIPE, stderr=subprocess.PIPE, text=True,
                              env=dict(os.environ, GOMAXPROCS="2"))
         try:
             out, err = p.communicate(timeout=timeout + (b - k) * 0.05)
@@ -54,7 +56,7 @@ def eval_range(drv, wd, a, b, timeout=25):
             # the budget is per range: on a loaded machine it can run out on an innocent fault, so the fault that was
             # in progress is evaluated again on its own, with a generous limit, before it is blamed
             try:
-                q = subprocess.run(["prlimit", "--as=8000000000", drv, "eval", wd, str(started), str(started + 1)], stdout=subprocess.PIPE, stderr=subprocess.PIPE,
+                q = subprocess.run(["prlimit", "--as=8000000000", drv, "eval", wd, str(started), str(started + 1)] + targ, stdout=subprocess.PIPE, stderr=subprocess.PIPE,
                                    text=True, timeout=180, env=dict(os.environ, GOMAXPROCS="2"))
                 m = re.search(r"^(OK|BAD) %d ?(.*)$" % started, q.stdout, re.M)
                 if m:
@@ -105,7 +107,7 @@ def run(pid, tier):
     try:
         mod = C.assemble(sc)
         drv = C.gobuild(mod, "drvfault", os.path.join(sc, "drvfault"))
-        ncases = 14 if tier == "quick" else 160
+        ncases = 14 if tier == "quick" else 100
         cases = [CT.gen_case(rng, "f%d" % i, rng.choice(["C01", "C02", "C11"])) for i in range(ncases * 3)]
         # keep a spread of layouts: small, multi-block, indexed, with logs / object index
         cases.sort(key=lambda c: (len(c["refs"]) + len(c["logs"])))
@@ -149,7 +151,7 @@ def run(pid, tier):
         os.makedirs(wd)
         with open(os.path.join(wd, "cases.json"), "w") as f:
             json.dump(pick, f)
-        nrandom = 150 if tier == "quick" else 2500
+        nrandom = 150 if tier == "quick" else 800
         p = subprocess.run([drv, "plan", os.path.join(wd, "cases.json"), wd, str(nrandom), str(seed)], stdout=subprocess.PIPE, stderr=subprocess.STDOUT, text=True, timeout=600)
         if p.returncode != 0:
             raise C.Inconclusive("fault planning failed: " + p.stdout[-2000:])
@@ -157,12 +159,18 @@ def run(pid, tier):
             plan = json.load(f)
         faults = plan["faults"]
         nf = len(faults)
-        step = 400
-        ranges = [(a, min(nf, a + step)) for a in range(0, nf, step)]
+        # faults are stored table by table (plan-<t>.json): ranges are per table, results are mapped back to global indices
+        step = 400 if tier == "quick" else 1500
+        base, ranges = {}, []
+        for gi, ft in enumerate(faults):
+            base.setdefault(ft["table"], gi)
+        counts = collections.Counter(ft["table"] for ft in faults)
+        for t, n in sorted(counts.items()):
+            ranges += [(t, a, min(n, a + step)) for a in range(0, n, step)]
         results = {}
-        with cf.ThreadPoolExecutor(max_workers=8) as ex:
-            for r in ex.map(lambda ab: eval_range(drv, wd, ab[0], ab[1]), ranges):
-                results.update(r)
+        with cf.ThreadPoolExecutor(max_workers=8 if tier == "quick" else 12) as ex:
+            for (t, a, b), r in zip(ranges, ex.map(lambda tab: eval_range(drv, wd, tab[1], tab[2], table=tab[0]), ranges)):
+                results.update({base[t] + k: v for k, v in r.items()})
         bad = {k: v for k, v in results.items() if v}
         nviol, seen_known = 0, set()
         bysig = collections.OrderedDict()
